@@ -150,6 +150,8 @@ func runC14(r *Run, verifDir string) {
 	c14G5(r)
 	c14G6(r)
 	c14G7(r)
+	bigNarrowRule(r, "C14.G8")
+	r.Import("C14.G9", "the binary writer emits a Big Integer only as the sign-extended two's complement of bigIntToBytes (key material of any magnitude keeps its value and sign)", 2, "C03", "C03.T3", func(k string) bool { return strings.Contains(k, "BigInteger") })
 }
 
 // ---------------------------------------------------------------- G1
